@@ -556,8 +556,9 @@ def run(ctx):
         "Eigen's makeGivens (real) and apply_rotation_in_the_plane (non-vectorised path) are transcribed by hand into LMQR.v (make_givens, rotx/roty)",
         "QR = A theorems need the orthogonalised new column to have non-zero norm (new column not in the span of the window) - exactly dependent columns are outside the property; they are only run for correspondence",
         "min_eig/max_eig initial +-inf are modelled as None; scale_R on an empty factorisation leaves them None (C++: inf*s)",
-        "re-orthogonalisation loop is modelled with fuel 64 (the QR=A theorem holds for any fuel); termination of the C++ while loop is not proved",
-        "orthonormality of Q and least-squares optimality are proved only per step under the hypothesis that Q was orthonormal (exact arithmetic); numerically they are checked by the oracle with condition-scaled tolerances",
+        "re-orthogonalisation loop is modelled with fuel 64; over the reals it is proved to stop after <= 1 extra pass (fuel-independent for fuel >= 2); in binary64 termination of the C++ while loop is only observed",
+        "orthonormality of Q, least-squares optimality of solve_col and the Anderson window/LS theorems are exact-arithmetic statements; in binary64 they are checked by the oracle with condition-scaled tolerances",
+        "least-squares minimality is proved when no pivot is thresholded; with thresholded pivots the theorem states x_T = 0 and Q_i^T(Ax-b) = 0 for the kept pivots (not a minimisation over all z)",
     ]
     check_properties(ctx)
     rc, log = coq_make(["theories/Corr_C10.vo"])     # the executable side of the model (kept up to date with LMQR.v)
